@@ -13,7 +13,7 @@ import re._parser as sre_parse
 
 from ..model import src
 from ..report import Report, key_of
-from ..terms import assume, dag_nodes, pretty
+from ..terms import assume, dag_nodes, has_opaque, normalise, pretty
 from ..types import Ctx
 from .c02 import check_reprstr_levels
 from .common import TRUSTED_BASE, cfg_nodes_for, expanded_facts, inl, loop_runs_to_end, loop_unconditional, resolve_expr, subst_single_assign, where
@@ -164,15 +164,54 @@ def run(A, R: Report, thorough: bool):
     R.require(frp is not None, 'anchor: _replace callback missing')
     R.rule('R11.3', 'for a name that is not defined (mapping key / object attribute) the callback returns `{name}` unchanged', floor=2)
     t = A.sym.func_term(frp, None)
-    n_abs = 0
-    for leaf, guards in branches(t):
-        conj = all_conj(guards)
-        absent = any((g[0] == 'cmp' and g[1] == 'In' and not pol) or (g[0] == 'call' and g[1] in ('hasattr', 'builtins.hasattr') and not pol) for g, pol in conj)
-        if absent:
-            n_abs += 1
-            ok = leaf[0] == 'cat' and len(leaf[1]) == 3 and leaf[1][0] == ('lit', '{') and leaf[1][2] == ('lit', '}') and leaf[1][1][0] == 'method' and leaf[1][1][2] == 'group'
-            R.check(ok, 'R11.3', '_replace: undefined name', key_of('verbatim', pretty(leaf)[:80]), 'returns {name}', f'an undefined placeholder is replaced by `{pretty(leaf)[:80]}` instead of being left verbatim', where=where(frp))
-    R.require(n_abs >= 2, f'anchor: expected an "absent" branch for mapping and for object replacements, found {n_abs}')
+    name_t = None
+    for x in dag_nodes(t):
+        if x[0] == 'method' and x[2] == 'group' and x[3] == (('lit', 1),):
+            name_t = x
+    if name_t is None:
+        R.undecided('R11.3', '_replace', 'placeholder name (match.group(1)) not recognised', where=where(frp))
+        R.undecided('R11.3', '_replace: object mode', 'placeholder name (match.group(1)) not recognised', where=where(frp))
+    else:
+        match_t = name_t[1]
+        repl = {x[1] for x in dag_nodes(t) if x[0] == 'isinst' and x[2] in (('global', 'dict'), ('builtin', 'dict'))}
+        verbatim = (('cat', (('lit', '{'), name_t, ('lit', '}'))), ('method', match_t, 'group', (('lit', 0),)), ('method', match_t, 'group', ()), ('index', match_t, ('lit', 0)))
+        modes = []
+        if len(repl) == 1:
+            r_ = next(iter(repl))
+            isd = ('isinst', r_, ('global', 'dict'))
+            modes = [('mapping', assume(t, lambda c: True if c[0] == 'isinst' and c[1] == r_ else None), r_), ('object', assume(t, lambda c: False if c[0] == 'isinst' and c[1] == r_ else None), r_)]
+        else:
+            # no dispatch on the kind of global_vars inside the callback: one lookup serves both kinds
+            rs_ = {x[3] for x in dag_nodes(t) if x[0] == 'cmp' and x[1] in ('In', 'NotIn') and x[2] == name_t} | {x[2][0] for x in dag_nodes(t) if x[0] == 'call' and x[1] in ('hasattr', 'builtins.hasattr') and len(x[2]) == 2 and x[2][1] == name_t}
+            r_ = next(iter(rs_)) if len(rs_) == 1 else None
+            modes = [('mapping', t, r_), ('object', t, r_)]
+        for mode, mt, r_ in modes:
+            construct = f'_replace: {mode} mode'
+            if r_ is None:
+                R.undecided('R11.3', construct, 'lookup of the placeholder name not recognised', where=where(frp))
+                continue
+            if mode == 'mapping':
+                want_def, want_val = ('cmp', 'In', name_t, r_), ('str', ('index', r_, name_t))
+            else:
+                want_def, want_val = ('call', 'hasattr', (r_, name_t)), ('str', ('call', 'getattr', (r_, name_t)))
+            defined = assume(mt, lambda c: True if c == want_def else None)
+            undefined = assume(mt, lambda c: False if c == want_def else None)
+            uses_test = want_def in dag_nodes(mt)
+            ok = uses_test and defined == normalise(want_val) and undefined in [normalise(v) for v in verbatim]
+            if ok:
+                R.ok('R11.3', construct, 'defined -> str(value), undefined -> the placeholder verbatim', witness=[pretty(mt)[:200]], where=where(frp))
+            elif has_opaque(mt):
+                R.undecided('R11.3', construct, 'the callback involves a construct the term engine does not interpret', where=where(frp))
+            elif mode == 'object' and not uses_test and any(x[0] == 'cmp' and x[1] in ('In', 'NotIn') and x[2] == name_t for x in dag_nodes(mt)):
+                R.violation('R11.3', construct, key_of('object-lookup', pretty(mt)[:120]),
+                            'for a global_vars object the placeholder name is looked up by membership instead of attribute access: names defined as class attributes, properties or inherited attributes count as undefined and stay unsubstituted',
+                            witness=[pretty(mt)[:300]], where=where(frp))
+            elif uses_test and undefined not in [normalise(v) for v in verbatim]:
+                R.violation('R11.3', construct, key_of('verbatim', pretty(undefined)[:80]), f'an undefined placeholder is replaced by `{pretty(undefined)[:80]}` instead of being left verbatim', where=where(frp))
+            elif uses_test and defined != normalise(want_val):
+                R.violation('R11.3', construct, key_of('value', pretty(defined)[:80]), f'a defined placeholder is replaced by `{pretty(defined)[:80]}` instead of str(<its value>)', where=where(frp))
+            else:
+                R.undecided('R11.3', construct, f'lookup idiom not recognised: {pretty(mt)[:160]}', where=where(frp))
 
     # ---- R11.4
     R.rule('R11.4', 'ReprStr.__new__ applies repr() once to raw text; every other store copies an existing repr; constructor calls pass raw text', floor=3)
